@@ -32,9 +32,9 @@ Open Scope Z_scope."""
 
 FWER = 1e-6          # family-wise error of the statistical stage, per run
 BIAS = 0.02          # allowance for the systematic error of the real algorithm (TDVP step, 1 ns jump location)
-DET_TOL_NOJUMP = 5e-4   # observed <= 1e-5
-DET_TOL_JUMP = 2e-2     # occupations; the jump time is located only to 1 ns (is_converged(tolerance=1)); observed <= 2e-3
-DET_TOL_WEIGHT = 6e-2   # relative; weights move by ~Omega * 1 ns around the crossing; observed <= 1.2e-2
+DET_TOL_NOJUMP = 2e-3   # observed <= 7e-5 (TDVP error of the no-jump evolution)
+DET_TOL_JUMP = 4e-2     # occupations; the jump time is located only to 1 ns (is_converged(tolerance=1)); observed <= 4e-3 for candidates of non-negligible weight
+DET_TOL_WEIGHT = 1e-1   # relative; weights move by ~Omega * 1 ns around the crossing; observed <= 2e-2
 
 
 # =====================================================================================================
@@ -52,12 +52,16 @@ def _seqdata(prob, ops, d):
                         ["r", "g"] if d == 2 else ["r", "g", "x"], HamiltonianType.Rydberg)
 
 
-def _config(observables):
+def _config(observables, precision=None):
+    """precision=None: the default truncation precision (1e-5 per truncation) — used by the statistical runs.
+    The deterministic scripted runs use 1e-8: they check the jump logic, not the truncation accuracy (with the
+    default, three qutrits already deviate by ~5e-3 in occupation from the exact H_eff evolution)."""
     import emu_mps
+    kw = {} if precision is None else {"precision": precision}
     with warnings.catch_warnings():
         warnings.simplefilter("ignore")
         return emu_mps.MPSConfig(observables=observables, log_level=logging.CRITICAL, optimize_qubit_ordering=False,
-                                 num_gpus_to_use=0)
+                                 num_gpus_to_use=0, **kw)
 
 
 class RandProxy:
@@ -435,12 +439,24 @@ def gen_noise_spec(rng, kind, d):
     raise ValueError(kind)
 
 
-def gen_case(rng, kind, n, M):
+def gen_case(rng, kind, n, M, coarse=False):
+    """coarse: 6 steps of 40 ns — only for n = 2, where a TDVP step is ONE exact two-site exponential (no splitting
+    error), which makes trajectories cheap enough for thousands of samples."""
     d = 3 if kind == "leakage" else 2
     steps = 20 if n <= 3 else 14
-    return {"kind": "stat", "noise_kind": kind, "n": n, "d": d, "steps": steps, "dt": 10.0, "scale": 3.0,
+    dt = 10.0
+    if coarse and n == 2:
+        steps, dt = 6, 40.0
+    return {"kind": "stat", "noise_kind": kind, "n": n, "d": d, "steps": steps, "dt": dt, "scale": 3.0,
             "phases": rng.random() < 0.6, "prob_seed": rng.randrange(10 ** 6), "noise": gen_noise_spec(rng, kind, d),
             "M": M, "seed": rng.randrange(2 ** 31)}
+
+
+def empirical_bernstein_threshold(var, M, delta):
+    """Maurer & Pontil (2009), Thm 4, two-sided: for iid X in [0,1] with sample variance V (unbiased),
+    P(|mean - mu| >= sqrt(2 V ln(4/delta) / M) + 7 ln(4/delta) / (3 (M - 1))) <= delta."""
+    L = math.log(4.0 / delta)
+    return math.sqrt(2.0 * max(var, 0.0) * L / M) + 7.0 * L / (3.0 * (M - 1))
 
 
 def bernstein_threshold(p, M, delta):
@@ -499,7 +515,10 @@ def stat_case(ctx, case, delta):
     worst = 0.0
     for ti in range(2):
         for j in range(n):
-            thr = bernstein_threshold(float(refo[ti, j]), M, delta) + BIAS
+            var = float(sd[ti, j]) ** 2 * M / (M - 1)
+            # either bound may be used (each at delta/2: union bound)
+            thr = min(bernstein_threshold(float(refo[ti, j]), M, delta / 2),
+                      empirical_bernstein_threshold(var, M, delta / 2)) + BIAS
             dev = abs(float(mean[ti, j] - refo[ti, j]))
             worst = max(worst, dev / thr)
             if dev > thr:
@@ -549,7 +568,8 @@ def det_case(ctx, case):
     try:
         with rebound_random(proxy):
             res = emu_mps.MPSBackend._run_from_sequence_data(
-                _seqdata(prob, ops, d), _config([Occupation(evaluation_times=[1.0]), StateResult(evaluation_times=[1.0])]))
+                _seqdata(prob, ops, d),
+                _config([Occupation(evaluation_times=[1.0]), StateResult(evaluation_times=[1.0])], precision=1e-8))
     except Exception as ex:
         ctx.violation(f"emu-mps raised on a scripted trajectory: {ex!r}", {"case": case, "finding_key": "e2e-raises"})
         return None
@@ -615,13 +635,13 @@ def falsifier_stage(ctx):
         det.append(gen_det_case(ctx.rng, kinds[i % 6], [2, 3, 2, 2, 3, 4][i % 6] if ctx.thorough() else [2, 3, 2][i % 3],
                                 jump=(i % 4 != 0)))
     if ctx.thorough():
-        plan = [("relaxation", 2, 1200), ("dephasing", 2, 1200), ("depolarizing", 2, 1200), ("effective", 2, 1200),
-                ("leakage", 2, 1200), ("mixed", 3, 400), ("leakage", 3, 300), ("relaxation", 4, 300),
-                ("effective", 3, 300), ("depolarizing", 3, 300)]
+        plan = [("relaxation", 2, 3000), ("dephasing", 2, 3000), ("depolarizing", 2, 3000), ("effective", 2, 3000),
+                ("leakage", 2, 3000), ("mixed", 2, 600), ("mixed", 3, 300), ("leakage", 3, 300), ("relaxation", 4, 300),
+                ("effective", 3, 300)]
     else:
-        plan = [("mixed", 2, 220), ("leakage", 2, 220), ("effective", 3, 120)]
+        plan = [("mixed", 2, 800), ("leakage", 2, 800), ("effective", 3, 120)]
     for kind, n, M in plan:
-        stat.append(gen_case(ctx.rng, kind, n, M))
+        stat.append(gen_case(ctx.rng, kind, n, M, coarse=(M >= 800)))
     worst_det, njump_hist = {}, {}
     for c in det:
         r = det_case(ctx, c)
@@ -660,15 +680,18 @@ def run(ctx):
                 "scripted choice and threshold. (c) deterministic scripted trajectories (no jump / one forced jump) for "
                 "relaxation, dephasing, depolarizing, effective, leakage (3 levels), mixed noise, 2-4 atoms, against a "
                 "dense H_eff evolution. (d) statistical: trajectory averages (python random seeded from ctx.rng) of "
-                "occupations at t = T/2 and T against the dense Lindblad reference; Bernstein bound with variance "
-                "p(1-p), Bonferroni over all (case, time, atom) tests.")
+                "occupations at t = T/2 and T against the dense Lindblad reference; acceptance by the smaller of "
+                "Bernstein's bound with variance p(1-p) and the empirical Bernstein bound (Maurer-Pontil), Bonferroni "
+                "over all (case, time, atom) tests; n = 2 cases with >= 800 trajectories use 6 steps of 40 ns (one "
+                "exact two-site exponential per step).")
     ctx.trusted_base += ["hand-written Model/McwfOps.v (validated by the two correspondences on every run)",
                          "python's random.choices / random.uniform are faithful samplers (the choice itself is not "
                          "modelled; its arguments are)",
                          "dense references: numpy/scipy expm, brentq"]
     ctx.assumptions += ["convergence of the trajectory average is NOT proved: validated statistically, acceptance "
-                        f"|mean - p| <= Bernstein(p(1-p), M, {FWER:g}/tests) + {BIAS} (bias allowance for the TDVP step "
-                        "error and the 1 ns jump-location tolerance)",
+                        f"|mean - p| <= min(Bernstein(p(1-p)), empirical Bernstein(sample variance)) at {FWER:g}/(2*tests) "
+                        f"each + {BIAS} (bias allowance for the TDVP step error and the 1 ns jump-location tolerance); "
+                        "both bounds are rigorous for iid [0,1]-valued samples, no normal approximation",
                         "the Coq model of the jump ingredients covers dim = 2; the 3-level (leakage) case is covered by "
                         "the deterministic and statistical falsifiers only",
                         "theorems are over exact rings; the first-order identities say nothing about the size of the "
@@ -696,7 +719,7 @@ META = {
              "dt sum <J^dagger J> + dt^2 |H_eff psi|^2; the average of the no-jump and jump branches equals rho + "
              "dt*Lindblad(rho) + dt^2 H_eff rho H_eff^dagger with the C16 generator, which is trace-free; jump weight = "
              "|J psi|^2; candidates and weights are both row-major (qubit, operator). Convergence of the trajectory "
-             "average is validated statistically (Bernstein bound, family-wise error 1e-6), not proved."),
+             "average is validated statistically (Bernstein / empirical-Bernstein bounds, family-wise error 1e-6), not proved."),
     "note": ("Trusted: Coq kernel+VM, the hand-written model (validated on every run), python's random module, the dense "
              "references. dim = 3 (leakage) is outside the Coq model of the jump ingredients."),
 }
